@@ -62,8 +62,9 @@ impl Ticket {
 struct BincodeError { x: u8 }
 uninterp spec fn decode_h(b: Seq<u8>) -> RuleHistory;
 uninterp spec fn decode_c(b: Seq<u8>) -> CurrentFileStatesInside;
+uninterp spec fn serialisable_h(x: RuleHistory) -> bool;
 #[verifier::external_body] fn bincode_serialize_h(x: &RuleHistory) -> (r: Result<Vec<u8>, BincodeError>)
-    ensures r matches Ok(b) ==> decodes_h(b@) && decode_h(b@) == *x { unimplemented!() }
+    ensures r matches Ok(b) ==> decodes_h(b@) && decode_h(b@) == *x, r is Ok <==> serialisable_h(*x) { unimplemented!() }
 #[verifier::external_body] fn bincode_deserialize_h(b: &Vec<u8>) -> (r: Result<RuleHistory, BincodeError>)
     ensures r is Ok <==> decodes_h(b@), r matches Ok(x) ==> x == decode_h(b@) { unimplemented!() }
 // (serialising the in-memory table cannot fail: the code unwraps it)
@@ -100,6 +101,9 @@ impl<SystemType : System> History<SystemType> {
             only_changed(*old(w), *final(w), old(self).hpath(rule_ticket), old(self).hpath(rule_ticket) + tmp_suffix()),   //# O-H-write-frame [C11,C09]
             res is Ok ==> final(w).files.contains_key(old(self).hpath(rule_ticket))                 //# O-H-written [C11]
                 && decode_h(final(w).files[old(self).hpath(rule_ticket)].content) == rule_history,
+            // PROGRESS: the write fails only when a System primitive failed (or the value cannot be serialised) -- whatever lies
+            // around in the directory, e.g. the `.tmp` sibling a killed run left behind, does not make it fail                //# O-H-write-progress [C11]
+            res is Err ==> final(w).faults > old(w).faults || !serialisable_h(rule_history),
 //@ hint start
         let ghost hp = self.hpath(rule_ticket);
 //@ hint after 1/1 /let rule_history_file_path = [^;]*;/
@@ -130,6 +134,7 @@ impl<SystemType : System> History<SystemType> {
     ensures state_ok(*final(w)),                                                                     //# O-H-state-ok-table [C11]
         only_changed(*old(w), *final(w), file_path@, file_path@ + tmp_suffix()),                    //# O-H-write-frame-table [C11,C09]
         res is Ok ==> final(w).files.contains_key(file_path@) && final(w).files[file_path@].content == content@,   //# O-H-written-table [C11]
+        res is Err ==> final(w).faults > old(w).faults,                                              //# O-H-write-progress-table [C11]
 //@ hint start
     proof { tmp_is_not_state(file_path@); empty_does_not_decode(); }
 //@ end
@@ -151,6 +156,7 @@ impl<SystemType : System> CurrentFileStates<SystemType> {
             only_changed(*old(w), *final(w), old(self).path@, old(self).path@ + tmp_suffix()),       //# O-H-to-file-frame [C11,C09]
             res is Ok ==> final(w).files.contains_key(old(self).path@) && decode_c(final(w).files[old(self).path@].content) == old(self).inside,   //# O-H-table-written [C11]
             res matches Err(e) ==> e is CannotRecordHistoryFile,
+            res is Err ==> final(w).faults > old(w).faults,                                          //# O-H-to-file-progress [C11]
 //@ end
 
 //@ extract current.rs impl /CurrentFileStates<SystemType>$/ fn from_inside
@@ -200,6 +206,9 @@ impl<SystemType : System> CurrentFileStates<SystemType> {
             res matches Ok(c) ==> c.path@ == path@ && c.wf(),
             res matches Ok(c) ==> (old(w).files.contains_key(path@) ==> c.inside == decode_c(old(w).files[path@].content)),
             res matches Ok(c) ==> (!old(w).files.contains_key(path@) ==> c.inside.file_states@ == Map::<String, FileState>::empty()),
+            // PROGRESS: with no table yet (first run, or a run killed before the table's first rename) the fresh table is written,
+            // and that fails only when a System primitive failed -- not because of what a killed run left next to it              //# O-H-from-file-progress [C11]
+            (!old(w).files.contains_key(path@) && res is Err) ==> final(w).faults > old(w).faults,
 //@ end
 
 // ---------- the in-memory table: handing a rule's entries out and taking them back ----------
@@ -315,6 +324,8 @@ spec fn own_dirs(d: Seq<char>) -> Set<Seq<char>> { set![d, d + "/cache"@, d + "/
         res is Ok ==> own_dirs(directory@).subset_of(final(w).dirs),
         // the state left by a kill is never fatal: whenever the table on disk decodes (STATE_OK), it is accepted                    //# O-H-init-not-fatal [C11]
         !(res matches Err(InitDirectoryError::FailedToReadCurrentFileStates(CurrentFileStatesError::CannotInterpretFile(_)))),
+        // PROGRESS: a directory error is reported only when a mkdir really failed                                                    //# O-H-init-progress [C11,C05]
+        (res matches Err(e) && !(e is FailedToReadCurrentFileStates)) ==> final(w).faults > old(w).faults,
         res matches Ok(e) ==> e.cache.path@ == directory@ + "/cache"@ && e.history.path@ == directory@ + "/history"@ && e.current_file_states.path@ == directory@ + "/current_file_states"@,
         res matches Ok(e) ==> (old(w).files.contains_key(directory@ + "/current_file_states"@) ==> e.current_file_states.inside == decode_c(old(w).files[directory@ + "/current_file_states"@].content)),
 //@ hint start
